@@ -229,6 +229,19 @@ Theorem C09_history_partial :
 Proof. intros Ht. exact (history_values rv_fixed Ht eq_refl). Qed.
 Print Assumptions C09_history_partial.
 
+(* id reuse: in a state satisfying the invariant a newly created node or edge (which may reuse the
+   slot of a removed element) starts without any property *)
+Theorem C09_new_element_empty :
+  forall d, Inv d ->
+  kvs_get (vals (snd (insert_node_db d))) (fst (insert_node_db d)) = [] /\
+  (forall f t e d', live d f = true -> live d t = true -> insert_edge_db d f t = ROk (e, d') ->
+                    kvs_get (vals d') e = []).
+Proof.
+  intros d Hd. split; [apply (insert_node_db_Inv d Hd)|].
+  intros f t e d' Hf Ht Hi. apply (insert_edge_db_Inv d f t e d' Hd Hf Ht Hi).
+Qed.
+Print Assumptions C09_new_element_empty.
+
 Example C09_history_nonvacuous : Forall query_ok c09_history /\ all_succeed rv_fixed db_new c09_history.
 Proof. exact c09_history_ok. Qed.
 Print Assumptions C09_history_nonvacuous.
